@@ -6,8 +6,11 @@ EXTENDS Names, Json, IOUtils
 VARIABLE asked
 EnvInt(name, default) == IF name \in DOMAIN IOEnv THEN atoi(IOEnv[name]) ELSE default
 Depth == EnvInt("VERIF_DEPTH", 2)
-MCClasses == {"unit", "prefix"}
-MCKeys == [c \in MCClasses |-> IF c = "unit" THEN {"u1", "u2", "sq1"} ELSE {"p7", "p8"}]
+MCClasses == {"unit", "prefix", "dimension"}
+MCKeys == [c \in MCClasses |-> IF c = "unit" THEN {"u1", "u2", "sq1"} ELSE IF c = "prefix" THEN {"p7", "p8"} ELSE {"d1", "d2", "d3"}]
+\* VERIF_DIMS = 1: the dimension registry on its own (Dimension.define creates a fundamental dimension d2 / d3,
+\* Dimension.derive names a dimension d1 that came about anonymously by arithmetic, Dimension.named looks up)
+DimMode == EnvInt("VERIF_DIMS", 0)
 MCNameTok == {"", "na", "nb"}
 MCSymTok == {"", "sa", "sb", "na"}      \* "na" is also a NAME: a symbol lookup may fall back to the name registry
 MCBadSyms == {"s c", "#5"}          \* a symbol with a space; a symbol that is not a string (the integer 5)
@@ -26,7 +29,12 @@ Step ==
   \/ \E k \in {"p7", "p8"} : k \notin known["prefix"] /\ Anon("prefix", k)
   \/ \E x \in {"sa", "na"} : <<"unit", x>> \notin asked /\ Cardinality(asked) < 2 /\ Lookup("unit", x)
   \/ <<"prefix", "sa">> \notin asked /\ Cardinality(asked) < 2 /\ Lookup("prefix", "sa")
-MCNext == TLCGet("level") <= Depth /\ Step /\ asked' = (IF ev'.op = "lookup" THEN asked \cup {<<ev'.c, ev'.s>>} ELSE asked)
+DimStep ==
+  \/ \E k \in {"d2", "d3"}, n \in N1 : Declare("dim-define", "dimension", k, n, "", TRUE)
+  \/ \E k \in known["dimension"], n \in N1 : NamesOf("dimension", k) = <<>> /\ Declare("dim-derive", "dimension", k, n, "", FALSE)
+  \/ "d1" \notin known["dimension"] /\ Anon("dimension", "d1")
+  \/ \E x \in N1 : <<"dimension", x>> \notin asked /\ Cardinality(asked) < 2 /\ Lookup("dimension", x)
+MCNext == TLCGet("level") <= Depth /\ (IF DimMode = 1 THEN DimStep ELSE Step) /\ asked' = (IF ev'.op = "lookup" THEN asked \cup {<<ev'.c, ev'.s>>} ELSE asked)
 \* lookups leave the registries alone, so (like C08's queries) they are part of the observed history: `asked`
 \* is kept in the VIEW through ev only for the step itself; sequences lookup -> declare -> lookup are reached
 \* because a lookup's successor state differs from its predecessor by the `asked` set
